@@ -30,7 +30,7 @@ guard `NoZeroEdge` that excludes it.
 Not carried by a theorem: serialisation of AccountProof/ContractVarProof, loading the value behind
 the 32-byte leaf (`GetAccountAndProof`), exercised on the real code by the c11 harness only.
 -/
-import Aergo.Lemmas.TrieComplete
+import Aergo.Lemmas.TrieCompress
 
 namespace Aergo.Props.C11
 open Aergo.Trie
@@ -269,6 +269,357 @@ theorem compressed_equiv : ∀ (bits : List Bool) (k : List Bool) (ap : List Byt
         simp only [vUpC, expand, Option.map_map]
         rw [ih ks ap leaf hl']
         cases expand bits ap <;> simp [vUp]
+
+/-! ### Compressed proofs: generation, completeness, soundness (byte level) -/
+
+/-- **Compressed generation**: from what `merkleProofCompressed` makes of a plain audit path `ap`
+(bitmap of `len/8+1` bytes, the non-default siblings, the length) the compressed verifier reads back
+exactly `ap` (root first): compress, then expand, is the identity. -/
+theorem compress_expand (ap : List Bytes) :
+    (readBits (compress ap).1 (compress ap).2.2).bind (fun bits => expand bits (compress ap).2.1.reverse)
+      = some ap.reverse := by
+  have e1 : (compress ap).2.2 = ap.length := rfl
+  have e2 : (compress ap).2.1 = ap.filter stored := rfl
+  rw [e1, e2, readBits_compress]
+  simp only [Option.bind_some]
+  rw [← List.map_reverse, ← List.filter_reverse]
+  exact expand_stored ap.reverse
+
+private theorem rootC_compress (key : List Bool) (leaf : Bytes) (ap : List Bytes) (hl : ap.length ≤ key.length) :
+    rootC c (compress ap).1 key leaf (compress ap).2.1 (compress ap).2.2 = some (vUp c key ap.reverse leaf) := by
+  have e1 : (compress ap).2.2 = ap.length := rfl
+  have e2 : (compress ap).2.1 = ap.filter stored := rfl
+  simp only [rootC, e1, e2, readBits_compress]
+  have : ¬ ap.length > key.length := by omega
+  simp only [this, ↓reduceIte]
+  rw [compressed_equiv _ _ _ _ (by simpa using hl), ← List.map_reverse, ← List.filter_reverse, expand_stored]
+  rfl
+
+/-- The node's compressed inclusion proof is judged exactly like its plain one (no panic). -/
+theorem verifyInclusionC_compress (root : Bytes) (key : List Bool) (value : Bytes) (ap : List Bytes)
+    (hl : ap.length ≤ key.length) :
+    verifyInclusionC c Ht root (compress ap).1 key value (compress ap).2.1 (compress ap).2.2
+      = some (verifyInclusion c Ht root ap key value) := by
+  simp only [verifyInclusionC, rootC_compress _ _ _ hl, Option.map_some, verifyInclusion]
+  rfl
+
+/-- The node's compressed non-inclusion proof is judged exactly like its plain one (no panic). -/
+theorem verifyNonInclusionC_compress (root : Bytes) (key : List Bool) (value : Bytes) (pk : Option (List Bool))
+    (ap : List Bytes) (hl : ap.length ≤ key.length) (hpk : ∀ p, pk = some p → ap.length ≤ p.length) :
+    verifyNonInclusionC c Ht root (compress ap).1 key value pk (compress ap).2.1 (compress ap).2.2
+      = some (verifyNonInclusion c Ht root ap key value pk) := by
+  have e1 : (compress ap).2.2 = ap.length := rfl
+  cases pk with
+  | none =>
+    have hr := rootC_compress (c := c) key defaultLeaf ap hl
+    simp only [verifyNonInclusionC, verifyNonInclusion]
+    rw [hr, e1]
+    cases ap <;> simp
+  | some p =>
+    simp only [verifyNonInclusionC, verifyNonInclusion]
+    split
+    · rfl
+    · rw [verifyInclusionC_compress _ _ _ _ (hpk p rfl)]
+      have : ¬ ap.length > key.length := by omega
+      cases verifyInclusion c Ht root ap p value <;> simp [this, e1]
+
+/-- **Completeness, inclusion, compressed**: the compressed proof the node produces for a present key verifies. -/
+theorem complete_incl_compressed (t : T Bytes) (k : List Bool) (v : Bytes) (cn : Canon Ht t) (hk : k.length = Ht)
+    (g : Trie.get t k = some v) :
+    let cp := compress (sibHashes c (merkleProof Ht [] t k).ap)
+    verifyInclusionC c Ht (rootOf c Ht t) cp.1 k v cp.2.1 cp.2.2 = some true := by
+  intro cp
+  have hl := ap_len t Ht [] k cn hk
+  rw [verifyInclusionC_compress _ _ _ _ (by rw [sib_len, hk]; exact hl), complete_incl t k v cn hk g]
+
+/-- **Completeness, absence, compressed**: the compressed proof the node produces for an absent key verifies
+(empty subtree, foreign leaf, empty trie). -/
+theorem complete_excl_compressed (t : T Bytes) (k : List Bool) (cn : Canon Ht t) (hk : k.length = Ht)
+    (g : Trie.get t k = none) :
+    let pr := merkleProof Ht [] t k
+    let cp := compress (sibHashes c pr.ap)
+    verifyNonInclusionC c Ht (rootOf c Ht t) cp.1 k
+      (match pr.proofKV with | some kv => kv.2 | none => []) (pr.proofKV.map (·.1)) cp.2.1 cp.2.2 = some true := by
+  intro pr cp
+  have hl := ap_len t Ht [] k cn hk
+  have hpk : ∀ p, pr.proofKV.map (·.1) = some p → (sibHashes c pr.ap).length ≤ p.length := by
+    intro p hp
+    obtain ⟨_, hcase⟩ := bottom_absent (c := c) t Ht [] k cn hk g
+    rcases hcase with ⟨hnone, _⟩ | ⟨sk, sv, hsome, _, hskl, _⟩
+    · have e1 : pr.proofKV = none := hnone
+      rw [e1] at hp; cases hp
+    · have e1 : pr.proofKV = some ([] ++ k.take pr.ap.length ++ sk, sv) := hsome
+      rw [e1] at hp
+      simp only [Option.map_some, List.nil_append, Option.some.injEq] at hp
+      subst hp
+      simp only [sib_len, List.length_append, List.length_take, hk]
+      have : pr.ap.length ≤ Ht := hl
+      omega
+  rw [verifyNonInclusionC_compress _ _ _ _ _ (by rw [sib_len, hk]; exact hl) hpk]
+  exact congrArg some (complete_excl t k cn hk g)
+
+/-- **Soundness, inclusion, compressed**: ANY compressed proof (bitmap, siblings, length - not only generated
+ones) accepted for `(k, v)` means the trie holds `k ↦ v`, or the hash function is exhibited broken on the strings
+hashed by the two sides; `full` is the plain path the compressed proof stands for. -/
+theorem sound_incl_compressed (ok : HashOK c Ht) (t : T Bytes) (k : List Bool) (v : Bytes) (bm : Bytes)
+    (apC : List Bytes) (len : Nat) (cn : Canon Ht t) (v32 : Vals32 t) (hk : k.length = Ht) (hv : v.length = 32)
+    (hw : ∀ s ∈ apC, WfSib s) (hl : len ≤ Ht)
+    (acc : verifyInclusionC c Ht (rootOf c Ht t) bm k v apC len = some true) :
+    Trie.get t k = some v ∨
+      ∃ full, (readBits bm len).bind (fun bits => expand bits apC.reverse) = some full ∧
+        BrokenOn c.H (hashedT c Ht [] t) (hashedUp c k full (c.enc k ++ v ++ [byteOf (Ht - len)])) := by
+  simp only [verifyInclusionC, rootC] at acc
+  cases hb : readBits bm len with
+  | none => simp [hb] at acc
+  | some bits =>
+    have bl := readBits_len hb
+    have hng : ¬ len > k.length := by omega
+    simp only [hb, hng, ↓reduceIte] at acc
+    rw [compressed_equiv _ _ _ _ (by omega)] at acc
+    cases he : expand bits apC.reverse with
+    | none => simp [he] at acc
+    | some full =>
+      obtain ⟨fl, fm⟩ := expand_some bits apC.reverse full he
+      simp only [he, Option.map_some, Option.some.injEq] at acc
+      have acc' : verifyInclusion c Ht (rootOf c Ht t) full.reverse k v = true := by
+        simp only [verifyInclusion, List.reverse_reverse, List.length_reverse, fl, bl]
+        exact acc
+      have hw' : ∀ s ∈ full.reverse, WfSib s := by
+        intro s hs
+        rcases fm s (by simpa using hs) with m | e
+        · exact hw s (by simpa using m)
+        · exact Or.inr e
+      rcases sound_incl ok t k v full.reverse cn v32 hk hv hw' (by simp [fl, bl]; exact hl) acc' with g | br
+      · exact Or.inl g
+      · right
+        refine ⟨full, by simp [he], ?_⟩
+        simpa [fl, bl] using br
+
+/-! ### What the node serves: account and contract-variable proofs (StateDB.GetAccountAndProof / GetVarAndProof) -/
+
+/-- The proof the state DB assembles from trie `t` convinces a client that trusts `rootOf t`, says "included"
+exactly for the present keys, and carries the stored value. -/
+theorem assemble_complete (vh load : Bytes → Bytes) (t : T Bytes) (k : List Bool) (cn : Canon Ht t) (hk : k.length = Ht)
+    (ad : Addressed vh load t) :
+    walletAccepts c Ht vh (rootOf c Ht t) k (assemble c Ht load t k) = true ∧
+      (assemble c Ht load t k).inclusion = (Trie.get t k).isSome ∧
+      (assemble c Ht load t k).value = (Trie.get t k).map load := by
+  cases g : Trie.get t k with
+  | some v =>
+    obtain ⟨hi, hv, _⟩ := bottom_present (c := c) t Ht [] k v cn hk g
+    have ci := complete_incl (c := c) t k v cn hk g
+    have ha : assemble c Ht load t k = ⟨true, some (load v), none, [], sibHashes c (merkleProof Ht [] t k).ap⟩ := by
+      simp only [assemble, hi, ↓reduceIte, hv, Option.map_some, sibH_eq]
+    rw [ha]
+    refine ⟨?_, rfl, rfl⟩
+    simp only [walletAccepts, ↓reduceIte, ad k v g]
+    exact ci
+  | none =>
+    obtain ⟨hi, _⟩ := bottom_absent (c := c) t Ht [] k cn hk g
+    have ce := complete_excl (c := c) t k cn hk g
+    have hi' : (merkleProof Ht [] t k).included = false := hi
+    refine ⟨?_, ?_, ?_⟩
+    · simp only [assemble, hi', Bool.false_eq_true, ↓reduceIte, walletAccepts, sibH_eq]
+      exact ce
+    · simp [assemble, hi']
+    · simp [assemble, hi']
+
+/-- **Account proofs are complete** (`GetAccountAndProof`): at the requested root, or at the latest one when the
+request names none. -/
+theorem account_proof_complete (vh load : Bytes → Bytes) (cur : T Bytes) (req : Option (T Bytes)) (k : List Bool)
+    (cn : Canon Ht (req.getD cur)) (hk : k.length = Ht) (ad : Addressed vh load (req.getD cur)) :
+    walletAccepts c Ht vh (rootOf c Ht (req.getD cur)) k (getAccountProof c Ht load cur req k) = true ∧
+      (getAccountProof c Ht load cur req k).inclusion = (Trie.get (req.getD cur) k).isSome ∧
+      (getAccountProof c Ht load cur req k).value = (Trie.get (req.getD cur) k).map load :=
+  assemble_complete vh load _ k cn hk ad
+
+/-- **Contract-variable proofs are complete** (`GetVarAndProof`, after fix cdf2eb39): against the contract's storage
+root, whatever (account) trie `cur` the instance is positioned at, and also for a contract WITHOUT storage
+(`storage = .empty`, storage root nil). On the tree before the fix the last case failed for every key - the proof
+was taken from `cur` (finding C11-var-proof-nil-storage-root, found by the c11 harness, repaired). -/
+theorem var_proof_complete (vh load : Bytes → Bytes) (cur storage : T Bytes) (k : List Bool)
+    (cn : Canon Ht storage) (hk : k.length = Ht) (ad : Addressed vh load storage) :
+    walletAccepts c Ht vh (rootOf c Ht storage) k (getVarProof c Ht load cur storage k) = true ∧
+      (getVarProof c Ht load cur storage k).inclusion = (Trie.get storage k).isSome ∧
+      (getVarProof c Ht load cur storage k).value = (Trie.get storage k).map load :=
+  assemble_complete vh load storage k cn hk ad
+
+/-- **Against a nil root only the empty proof verifies**: no inclusion claim whatsoever, and of the non-inclusion
+proofs only the one without audit path and without foreign leaf (what the node returns for the empty trie). This is
+why the pre-fix answer for a storage-less contract - a proof out of the account trie - could never convince a client
+holding the contract's nil storage root (`proof_trivial_empty`: a non-empty canonical trie never yields that proof). -/
+theorem nil_root_sound (ok : HashOK c Ht) (ap : List Bytes) (k : List Bool) (v : Bytes) (pk : Option (List Bool)) :
+    verifyInclusion c Ht [] ap k v = false ∧
+      (verifyNonInclusion c Ht [] ap k v pk = true → pk = none ∧ ap = []) :=
+  ⟨verifyInclusion_nil_root ok ap k v, verifyNonInclusion_nil_root ok ap k v pk⟩
+
+/-- ... so an answer assembled from ANY non-empty canonical trie (such as the account trie) is rejected by a client
+that holds a nil storage root: the defect before fix cdf2eb39, for every key. -/
+theorem foreign_trie_answer_rejected (ok : HashOK c Ht) (vh load : Bytes → Bytes) (cur : T Bytes) (k : List Bool)
+    (cn : Canon Ht cur) (hne : cur ≠ .empty) (hk : k.length = Ht) :
+    walletAccepts c Ht vh (rootOf c Ht .empty) k (assemble c Ht load cur k) = false := by
+  cases hacc : walletAccepts c Ht vh (rootOf c Ht .empty) k (assemble c Ht load cur k) with
+  | false => rfl
+  | true =>
+    exfalso
+    simp only [rootOf, assemble, walletAccepts] at hacc
+    split at hacc
+    · -- the account trie happens to hold the key: "included", with some account's state as value
+      simp only [↓reduceIte] at hacc
+      split at hacc
+      · rw [verifyInclusion_nil_root ok] at hacc; cases hacc
+      · cases hacc
+    · rename_i hi
+      simp only [Bool.false_eq_true, ↓reduceIte] at hacc
+      obtain ⟨hpk, hap⟩ := verifyNonInclusion_nil_root ok _ _ _ _ hacc
+      have hap' : (merkleProof Ht [] cur k).ap = [] := by simpa [sibH] using hap
+      have hpk' : (merkleProof Ht [] cur k).proofKV = none := by simpa using hpk
+      exact hne (proof_trivial_empty cur k cn hk hap' hpk' (by simpa using hi))
+
+/-- **What a client accepts is true** (soundness of the wallet check, inclusion side): an accepted "included"
+answer carries a value whose hash the trie holds under `k` - or the hash function is exhibited broken. -/
+theorem wallet_sound (ok : HashOK c Ht) (vh : Bytes → Bytes) (t : T Bytes) (k : List Bool) (pr : NodeProof)
+    (cn : Canon Ht t) (v32 : Vals32 t) (hk : k.length = Ht) (hvh : ∀ x, (vh x).length = 32)
+    (hw : ∀ s ∈ pr.ap, WfSib s) (hl : pr.ap.length ≤ Ht) (hinc : pr.inclusion = true)
+    (acc : walletAccepts c Ht vh (rootOf c Ht t) k pr = true) :
+    ∃ x, pr.value = some x ∧ (Trie.get t k = some (vh x) ∨
+      BrokenOn c.H (hashedT c Ht [] t) (hashedUp c k pr.ap.reverse (c.enc k ++ vh x ++ [byteOf (Ht - pr.ap.length)]))) := by
+  simp only [walletAccepts, hinc, ↓reduceIte] at acc
+  cases hv : pr.value with
+  | none => simp [hv] at acc
+  | some x =>
+    simp only [hv] at acc
+    exact ⟨x, rfl, sound_incl ok t k (vh x) pr.ap cn v32 hk (hvh x) hw hl acc⟩
+
+/-! ### Length preconditions: they are needed -/
+
+/-- **Split ambiguity** (why `hk`, `hv` are hypotheses of every soundness theorem): `common.Hasher` hashes the
+CONCATENATION of key, value and height byte, and the Go verifiers check no length. Two claims `(k, v)`, `(k', v')`
+with `enc k ++ v = enc k' ++ v'` whose keys agree on the bits the audit path walks get the same verdict. -/
+theorem split_ambiguity (root : Bytes) (ap : List Bytes) (k k' : List Bool) (v v' : Bytes)
+    (he : c.enc k ++ v = c.enc k' ++ v') (hb : k.take ap.length = k'.take ap.length)
+    (hl : ap.length ≤ k.length) (hl' : ap.length ≤ k'.length) :
+    verifyInclusion c Ht root ap k v = verifyInclusion c Ht root ap k' v' := by
+  simp only [verifyInclusion, he]
+  rw [vUp_take ap.reverse k k' _ (by simpa using hb) (by simpa using hl) (by simpa using hl')]
+
+/-- ... instantiated with the real key packing (8 bits per byte): moving the last `8 * j` … bits of the key into
+the value - `VerifyInclusion(ap, key[:i], key[i:] ++ value)` in Go - is accepted whenever `(key, value)` is,
+for every hash function, as long as the audit path is not longer than the shortened key. -/
+theorem short_key_same_verdict (H : Bytes → Bytes) (root : Bytes) (ap : List Bytes) (k : List Bool) (v : Bytes) (i : Nat)
+    (hi : 8 * i ≤ k.length) (hl : ap.length ≤ 8 * i) :
+    verifyInclusion ⟨H, packBits⟩ Ht root ap (k.take (8 * i)) (packBits (k.drop (8 * i)) ++ v)
+      = verifyInclusion ⟨H, packBits⟩ Ht root ap k v := by
+  apply split_ambiguity
+  · show packBits (k.take (8 * i)) ++ (packBits (k.drop (8 * i)) ++ v) = packBits k ++ v
+    rw [← List.append_assoc, ← packBits_append i _ _ (by simp; omega), List.take_append_drop]
+  · rw [List.take_take, Nat.min_eq_left hl]
+  · simp; omega
+  · omega
+
+/-- Consequence, in the trie: for a present key whose leaf sits no deeper than `8 * i`, the node's own proof is
+accepted for the shortened key `k[:8i]` with value `k[8i:] ++ v` - a key of another length, for which the trie holds
+nothing. No collision involved: soundness holds only for claims of the right lengths (`hk`, `hv` of `sound_incl`);
+a client must fix both lengths itself (the node's clients do: keys and values are SHA-256 digests they compute). -/
+theorem short_key_accepted (H : Bytes → Bytes) (t : T Bytes) (k : List Bool) (v : Bytes) (i : Nat) (cn : Canon Ht t)
+    (hk : k.length = Ht) (g : Trie.get t k = some v) (hi : 8 * i < Ht)
+    (hl : (merkleProof Ht [] t k).ap.length ≤ 8 * i) :
+    verifyInclusion ⟨H, packBits⟩ Ht (rootOf ⟨H, packBits⟩ Ht t) (sibHashes ⟨H, packBits⟩ (merkleProof Ht [] t k).ap)
+        (k.take (8 * i)) (packBits (k.drop (8 * i)) ++ v) = true ∧
+      Trie.get t (k.take (8 * i)) = none := by
+  constructor
+  · rw [short_key_same_verdict H _ _ k v i (by omega) (by rw [sib_len]; exact hl)]
+    exact complete_incl t k v cn hk g
+  · cases hg : Trie.get t (k.take (8 * i)) with
+    | none => rfl
+    | some w =>
+      have := get_some_len t Ht _ w cn hg
+      simp only [List.length_take] at this
+      omega
+
+/-! ### Root and height binding -/
+
+/-- **A proof binds the height**: two inclusion proofs for the same key accepted against the same root have the
+same length (the leaf's height byte is inside the hashed leaf) - or the hash function is exhibited broken. -/
+theorem height_bound (ok : HashOK c Ht) (t : T Bytes) (k : List Bool) (v v' : Bytes) (ap ap' : List Bytes)
+    (cn : Canon Ht t) (v32 : Vals32 t) (hk : k.length = Ht) (hv : v.length = 32) (hv' : v'.length = 32)
+    (hw : ∀ s ∈ ap, WfSib s) (hw' : ∀ s ∈ ap', WfSib s) (hl : ap.length ≤ Ht) (hl' : ap'.length ≤ Ht)
+    (acc : verifyInclusion c Ht (rootOf c Ht t) ap k v = true)
+    (acc' : verifyInclusion c Ht (rootOf c Ht t) ap' k v' = true) :
+    ap.length = ap'.length ∨
+      BrokenOn c.H (hashedT c Ht [] t) (hashedUp c k ap.reverse (c.enc k ++ v ++ [byteOf (Ht - ap.length)])) ∨
+      BrokenOn c.H (hashedT c Ht [] t) (hashedUp c k ap'.reverse (c.enc k ++ v' ++ [byteOf (Ht - ap'.length)])) := by
+  simp only [verifyInclusion, beq_bytes] at acc acc'
+  by_cases hne : t = .empty
+  · rw [hne] at acc
+    have := congrArg List.length acc
+    rw [vUp_len ok _ _ _ (ok.outLen _)] at this
+    simp [rootOf] at this
+  · rw [rootOf_ne hne] at acc acc'
+    have s1 := sound_desc ok ap.reverse Ht [] t k k v cn v32 (by simp) hk (by simp) hv
+      (by simpa using hw) (by simpa using hl) (by simpa using acc)
+    have s2 := sound_desc ok ap'.reverse Ht [] t k k v' cn v32 (by simp) hk (by simp) hv'
+      (by simpa using hw') (by simpa using hl') (by simpa using acc')
+    simp only [List.length_reverse] at s1 s2
+    rcases s1 with s1 | br
+    · rcases s2 with s2 | br'
+      · exact Or.inl (subAt_leaf_unique _ _ t k _ _ _ _ s1 s2)
+      · exact Or.inr (Or.inr br')
+    · exact Or.inr (Or.inl br)
+
+/-- **The root binds the contents** (the converse of C10's `root_depends_only_on_content`, which C10 does not
+have): two canonical tries with the same root hash are the same trie - or the hash function is exhibited broken
+on the strings hashed for one trie and those hashed when verifying, against it, the other trie's own proof of one
+of its keys. Hence a proof accepted against `rootOf t` is a statement about `t` and no other reachable trie. -/
+theorem root_binds_content (ok : HashOK c Ht) (t t' : T Bytes) (cn : Canon Ht t) (cn' : Canon Ht t')
+    (v32 : Vals32 t) (v32' : Vals32 t') (hr : rootOf c Ht t = rootOf c Ht t') :
+    t = t' ∨
+      (∃ k v, Trie.get t k = some v ∧ BrokenOn c.H (hashedT c Ht [] t')
+        (hashedUp c k (sibHashes c (merkleProof Ht [] t k).ap).reverse
+          (c.enc k ++ v ++ [byteOf (Ht - (sibHashes c (merkleProof Ht [] t k).ap).length)]))) ∨
+      (∃ k v, Trie.get t' k = some v ∧ BrokenOn c.H (hashedT c Ht [] t)
+        (hashedUp c k (sibHashes c (merkleProof Ht [] t' k).ap).reverse
+          (c.enc k ++ v ++ [byteOf (Ht - (sibHashes c (merkleProof Ht [] t' k).ap).length)]))) := by
+  -- one direction: what `a` holds, `b` holds (or broken)
+  have half : ∀ (a b : T Bytes), Canon Ht a → Canon Ht b → Vals32 a → Vals32 b → rootOf c Ht a = rootOf c Ht b →
+      ∀ k v, k.length = Ht → Trie.get a k = some v →
+        Trie.get b k = some v ∨ BrokenOn c.H (hashedT c Ht [] b)
+          (hashedUp c k (sibHashes c (merkleProof Ht [] a k).ap).reverse
+            (c.enc k ++ v ++ [byteOf (Ht - (sibHashes c (merkleProof Ht [] a k).ap).length)])) := by
+    intro a b ca cb va vb e k v hk g
+    have acc := complete_incl (c := c) a k v ca hk g
+    rw [e] at acc
+    exact sound_incl ok b k v _ cb vb hk (vals32_get a k v va g) (sibHashes_wf ok _)
+      (by rw [sib_len]; exact ap_len a Ht [] k ca hk) acc
+  by_cases hall : ∀ k, k.length = Ht → Trie.get t k = Trie.get t' k
+  · exact Or.inl (canon_unique Ht t t' cn cn' hall)
+  · right
+    have ⟨k, hk⟩ : ∃ k, ¬ (k.length = Ht → Trie.get t k = Trie.get t' k) := Classical.not_forall.mp hall
+    have ⟨hkl, hd⟩ : k.length = Ht ∧ Trie.get t k ≠ Trie.get t' k := Classical.not_imp.mp hk
+    cases g : Trie.get t k with
+    | some v =>
+      rcases half t t' cn cn' v32 v32' hr k v hkl g with g' | br
+      · exact absurd (g.trans g'.symm) hd
+      · exact Or.inl ⟨k, v, g, br⟩
+    | none =>
+      cases g' : Trie.get t' k with
+      | none => exact absurd (g.trans g'.symm) hd
+      | some v' =>
+        rcases half t' t cn' cn v32' v32 hr.symm k v' hkl g' with g2 | br
+        · rw [g] at g2; cases g2
+        · exact Or.inr ⟨k, v', g', br⟩
+
+/-- The hypotheses of `root_binds_content`, `height_bound`, `sound_incl_compressed` are satisfiable together with
+an accepted proof (test on a concrete instance: height 8, the one-key trie, the identity-like toy hash of C10's
+context is not needed - a constant 32-byte "digest" accepts the honest proof). -/
+example : verifyInclusionC ⟨fun _ => List.replicate 32 7, packBits⟩ 8
+    (rootOf ⟨fun _ => List.replicate 32 7, packBits⟩ 8 (.leaf [true, false, true, false, true, false, true, false] (List.replicate 32 1)))
+    (compress []).1 [true, false, true, false, true, false, true, false] (List.replicate 32 1) (compress []).2.1 (compress []).2.2
+    = some true := by decide
+
+/-- test: compress/expand on a concrete 10-element path (two bitmap bytes) -/
+example : compress [[1], defaultLeaf, [2], [3], defaultLeaf, defaultLeaf, [4], [5], [6], defaultLeaf]
+    = ([0xb3, 0x80], [[1], [2], [3], [4], [5], [6]], 10) := by decide
 
 /-- The assumptions on the hash context are satisfiable (test on a concrete instance: a 32-byte
 constant "digest" and an injective toy key packing for height 0). -/
